@@ -718,7 +718,7 @@ func extraC11Normaliser(c *Ctx, r *Report) {
 		}
 		for _, cf := range normFacts(facts) {
 			bo, ok := cf.Cond.(*ssa.BinOp)
-			if !ok || bo.Op != token.EQL || !cf.True {
+			if !ok || !assertsEq(bo, cf.True) {
 				continue
 			}
 			k, isK := constString(bo.Y)
@@ -823,6 +823,10 @@ func extraC20Wave2(c *Ctx, r *Report) {
 						v, ok := constInt(cb.X)
 						if !ok {
 							if ph, isPhi := cb.X.(*ssa.Phi); isPhi && nonNegativeInduction(ph) {
+								v, ok = 0, true
+							}
+							// the index of a `for i := range x` loop: go/ssa counts it as phi(-1, i+1)+1
+							if rangeIndex(cb.X) {
 								v, ok = 0, true
 							}
 						}
@@ -1415,6 +1419,32 @@ func extraC19Wave2(c *Ctx, r *Report) {
 }
 
 // nonNegativeInduction: a loop counter that starts at a constant >= 0 and is only ever incremented.
+// rangeIndex: v is the incremented index of a range-over-slice loop as go/ssa writes it: `t = phi(-1, t+1) + 1`, never
+// negative.
+func rangeIndex(v ssa.Value) bool {
+	bo, ok := v.(*ssa.BinOp)
+	if !ok || bo.Op != token.ADD {
+		return false
+	}
+	if k, ok := constInt(bo.Y); !ok || k != 1 {
+		return false
+	}
+	ph, ok := bo.X.(*ssa.Phi)
+	if !ok || len(ph.Edges) != 2 {
+		return false
+	}
+	init, back := false, false
+	for _, e := range ph.Edges {
+		if k, ok := constInt(e); ok && k == -1 {
+			init = true
+		}
+		if e == ssa.Value(bo) {
+			back = true
+		}
+	}
+	return init && back
+}
+
 func nonNegativeInduction(p *ssa.Phi) bool {
 	for _, e := range p.Edges {
 		if k, ok := constInt(e); ok {
